@@ -35,8 +35,8 @@ var mapLimits = []int{0, 1, 2, 3, 4, 5, 6, -1}
 var mapLeafNames = []string{"any", "ctPerm", "ctFile", "pnAny", "tagFoo", "typeA"}
 
 const (
-	hangCPU  = 250 * time.Millisecond // CPU time; a normal query takes 2µs..5ms
-	hangWall = 120 * time.Second       // no verdict (engine error) if the child got no CPU for that long
+	hangCPU  = 100 * time.Millisecond // CPU time; a normal query takes 2µs..5ms
+	hangWall = 240 * time.Second      // no verdict (engine error) if the child got no CPU for that long
 )
 
 type childReply struct {
